@@ -27,6 +27,7 @@ from ..runner import mix, result
 PROP = "C19"
 LEVEL = "fault_enumeration"
 EXHAUSTIVE = False
+TIER_OVERRIDES = {"quick": {"budget": 60.0, "workers": 16}, "thorough": {"budget": 900.0, "workers": 16}}
 RULE = ("per configuration (frame, partitioning, npartitions, temp-dir mode, store mode, refresh kw, "
         "retry budget) a fault-free baseline on the reference schedule fixes the fault points "
         "O_1..O_K (every SimFS call, write and close) and the reference dataset D*. Layer 1 "
